@@ -465,6 +465,7 @@ def plane_cylinder(
   plane_pos: wp.vec3,
   cylinder_center: wp.vec3,
   cylinder_axis: wp.vec3,
+  cylinder_xaxis: wp.vec3,
   cylinder_radius: float,
   cylinder_half_height: float,
 ) -> Tuple[wp.vec4, mat43f, wp.vec3]:
@@ -475,6 +476,7 @@ def plane_cylinder(
     plane_pos: Position point on the plane.
     cylinder_center: Center position of the cylinder.
     cylinder_axis: Axis direction of the cylinder.
+    cylinder_xaxis: Local x-axis of the cylinder (perpendicular to its axis).
     cylinder_radius: Radius of the cylinder.
     cylinder_half_height: Half height of the cylinder.
 
@@ -509,7 +511,7 @@ def plane_cylinder(
   vec = wp.where(
     len_sqr >= 1e-12,
     vec * safe_div(cylinder_radius, wp.sqrt(len_sqr)),
-    wp.vec3(1.0, 0.0, 0.0) * cylinder_radius,  # Default x-axis when degenerate
+    cylinder_xaxis * cylinder_radius,  # cylinder's x-axis when degenerate
   )
 
   # Project scaled vector on normal
